@@ -93,6 +93,11 @@ def toLvalueList : List PExpr → Option Bool
     | _, _ => none
 end
 
+/-- `matches!(expr.expr, Expr::Ident(_))` -/
+def PExpr.isIdent : PExpr → Bool
+  | .ident => true
+  | _ => false
+
 /-- `to_lvalue(e).is_ok()` -/
 def lvalueOk (e : PExpr) : Bool := (toLvalue e).isSome
 /-- `to_lvalue_no_literals(e).is_ok()` -/
@@ -518,7 +523,7 @@ def operator : Nat → Bool → P (Bool × PExpr)
       pure (true, ret)
     else
       let e ← atom n
-      pure ((match e with | .ident => true | _ => false), e)
+      pure (e.isIdent, e)
 
 /-- `chain(allow_backtick)` -/
 def chain : Nat → Bool → P PExpr
